@@ -636,7 +636,36 @@ impl CpcSketch {
             kxp = (1u64 << lg_k) as f64;
         }
 
-        let uncompressed = compressed.uncompress(lg_k, num_coupons);
+        let uncompressed = compressed.uncompress(lg_k, num_coupons)?;
+        let window_offset = determine_correct_offset(lg_k, num_coupons);
+        // the coupon count of the header must be the one the window and the table add up to
+        let mut counted = uncompressed
+            .window
+            .iter()
+            .map(|byte| byte.count_ones() as u64)
+            .sum::<u64>();
+        if !uncompressed.window.is_empty() {
+            counted += (window_offset as u64) << lg_k; // the early zone is all ones by default
+        }
+        for &row_col in uncompressed.table.slots() {
+            if row_col != u32::MAX {
+                let col = (row_col & 63) as u8;
+                if uncompressed.window.is_empty() || col >= window_offset + 8 {
+                    counted += 1;
+                } else if col < window_offset {
+                    counted = counted.wrapping_sub(1); // a surprising zero
+                } else {
+                    return Err(Error::deserial(
+                        "surprising value inside the window columns",
+                    ));
+                }
+            }
+        }
+        if counted != num_coupons as u64 {
+            return Err(Error::deserial(format!(
+                "the image holds {counted} coupons but its header says {num_coupons}"
+            )));
+        }
         Ok(CpcSketch {
             lg_k,
             seed,
